@@ -4,18 +4,18 @@ CONSTANTS
   CELLS <- CELLS_q
   GENS <- GENS_q
   ROTS <- ROTS_id
-  MaxDepth = 5
+  MaxDepth = 6
   FORGET = {}
   NOCOPY = {}
-  OBJ = "tmap"
+  OBJ = "grain"
   ALIASARG = FALSE
-  SAMEKEEP = FALSE
+  SAMEKEEP = TRUE
   UNWRITTEN = {}
-  EmitMode = 2
+  EmitMode = 0
 INVARIANT Coherent
 INVARIANT ReadFresh
 INVARIANT DepClosed
 INVARIANT CacheType
 INVARIANT UbiOwn
-INVARIANT EmitFinal
+VIEW View
 CHECK_DEADLOCK FALSE
